@@ -209,6 +209,7 @@ def main(prop, tier, seed, replay=None):
                 ctx.model.close()
             return 2
     try:
+        ctx.t0 = time.time()      # exploration time budgets start after translation, build and audit
         res = mod.run(ctx)
         res.setdefault("violations", [])
         res.setdefault("disagreements", [])
